@@ -146,6 +146,30 @@ def run(rep, tier):
                     rep.ob("R02.2", "swap|%s|%s" % (name, fam), ok,
                            "rollback update must restore (new -> old): its `old` operand borrows tuple field .1 and its `new` operand field .0 (got .%s / .%s)" % (
                                a_old, a_new), e.where())
+        # id-keyed families (BM25, HNSW): a removal of the id after an insertion of the same id, in the same pass, deletes the
+        # entry that was just (re)inserted - the remove must come first in the forward pass *and* in the rollback closure
+        for side, table in (("forward", fwd), ("rollback", rb)):
+            for fam in sorted(fams):
+                if fam == "btree_indexes":
+                    continue
+                insl = [e for (op, e) in table.get(fam, ()) if op == "insert"]
+                reml = [e for (op, e) in table.get(fam, ()) if op == "remove"]
+                if not insl or not reml:
+                    continue
+                late = []
+                for i_ in insl:
+                    for r_ in reml:
+                        if i_.fn is not r_.fn:
+                            continue
+                        g = i_.fn
+                        heads = {e.block for e in g.calls_named(r"Iterator::next$")}
+                        common = {h for h in heads if g.dominates(h, i_.block) and g.dominates(h, r_.block)
+                                  and g.can_reach([i_.block], [h]) and g.can_reach([r_.block], [h])}
+                        if r_.block in g.reachable_from(g.succ[i_.block], avoid=common):
+                            late.append(r_)
+                rep.ob("R02.2", "remove-before-insert|%s|%s|%s" % (name, side, fam), not late,
+                       "an id-keyed removal can run after the insertion of the same id in the %s pass (it would delete the entry just inserted)" % side,
+                       late[0].where() if late else f.file + ":%d" % f.line)
         # R02.3
         rb_blocks = set()
         for c, sites in rollback:
